@@ -77,7 +77,7 @@ func c05Payload(t *Tape, n int, maxLine int, nb *int) []byte {
 
 func genC05(t *Tape, tier string) *Scenario {
 	sc := &Scenario{Prop: "C05"}
-	sc.Srv = drawCfg(t, cfgOpts{})
+	sc.Srv = drawCfg(t, cfgOpts{allowTLS: true})
 	sc.Srv.MaxRcpt = 0
 	if sc.Srv.LMTP && t.Bool() {
 		sc.BE.Flavor = beLMTP
